@@ -376,7 +376,7 @@ pub fn check_c21(tier: Tier) -> Report {
     let mut nontrivial = 0u64;
     let mut rejected = 0u64;
     let mut samples = vec![];
-    let victims: Vec<&str> = VICTIMS.iter().copied().filter(|n| !n.contains("init") && !n.contains("results-only")).collect();
+    let victims: Vec<&str> = VICTIMS.iter().copied().filter(|n| !n.contains("init") && !n.starts_with("A-results-")).collect(); // victims with non-empty current data
     for vn in &victims {
         for g in &grid {
             let t = vtext(g);
